@@ -34,6 +34,11 @@ impl Lay {
     }
 }
 
+/// margins / strides are applied to the first and the last axis only (keeps allocations small)
+fn edge(ax: usize, rank: usize) -> bool {
+    ax == 0 || ax + 1 == rank
+}
+
 /// A backing allocation plus the recipe to obtain the logical array as a view of it
 pub struct Realized<T> {
     pub backing: ArrayD<T>,
@@ -47,9 +52,9 @@ impl<T: El> Realized<T> {
         let shape = logical.shape().to_vec();
         let bshape: Vec<usize> = match lay {
             Lay::C | Lay::F | Lay::Rev => shape.clone(),
-            Lay::Strided => shape.iter().map(|&n| 2 * n + 1).collect(),
+            Lay::Strided => shape.iter().enumerate().map(|(i, &n)| if edge(i, shape.len()) { 2 * n + 1 } else { n }).collect(),
             Lay::Perm => shape.iter().rev().copied().collect(),
-            Lay::Window => shape.iter().map(|&n| n + 2).collect(),
+            Lay::Window => shape.iter().enumerate().map(|(i, &n)| if edge(i, shape.len()) { n + 2 } else { n }).collect(),
         };
         let mut backing: ArrayD<T> = match lay {
             Lay::F => ArrayD::zeros(IxDyn(&bshape).f()),
@@ -71,13 +76,15 @@ impl<T: El> Realized<T> {
             Lay::C | Lay::F => v,
             Lay::Strided => {
                 let shape = self.shape.clone();
-                v.slice_each_axis_move_compat(|ax, _| Slice::new(1, Some(1 + 2 * shape[ax] as isize), 2))
+                let r = shape.len();
+                v.slice_each_axis_move_compat(|ax, _| if edge(ax, r) { Slice::new(1, Some(1 + 2 * shape[ax] as isize), 2) } else { Slice::new(0, None, 1) })
             }
             Lay::Rev => v.slice_each_axis_move_compat(|_, _| Slice::new(0, None, -1)),
             Lay::Perm => v.reversed_axes(),
             Lay::Window => {
                 let shape = self.shape.clone();
-                v.slice_each_axis_move_compat(|ax, _| Slice::new(1, Some(1 + shape[ax] as isize), 1))
+                let r = shape.len();
+                v.slice_each_axis_move_compat(|ax, _| if edge(ax, r) { Slice::new(1, Some(1 + shape[ax] as isize), 1) } else { Slice::new(0, None, 1) })
             }
         }
     }
@@ -90,7 +97,9 @@ impl<T: El> Realized<T> {
             Lay::C | Lay::F => v,
             Lay::Strided => {
                 for (ax, &n) in shape.iter().enumerate() {
-                    v.slice_axis_inplace(ndarray::Axis(ax), Slice::new(1, Some(1 + 2 * n as isize), 2));
+                    if edge(ax, shape.len()) {
+                        v.slice_axis_inplace(ndarray::Axis(ax), Slice::new(1, Some(1 + 2 * n as isize), 2));
+                    }
                 }
                 v
             }
@@ -103,7 +112,9 @@ impl<T: El> Realized<T> {
             Lay::Perm => v.reversed_axes(),
             Lay::Window => {
                 for (ax, &n) in shape.iter().enumerate() {
-                    v.slice_axis_inplace(ndarray::Axis(ax), Slice::new(1, Some(1 + n as isize), 1));
+                    if edge(ax, shape.len()) {
+                        v.slice_axis_inplace(ndarray::Axis(ax), Slice::new(1, Some(1 + n as isize), 1));
+                    }
                 }
                 v
             }
